@@ -867,7 +867,8 @@ func (g *Gen) frameCheckHeap(hn string, ml modLoc, pos token.Pos, callee string)
 	}
 	allowed := []string{}
 	if !ml.all {
-		allowed = append(allowed, "(> "+ml.base+" "+g.allocTerm(g.heap0)+")")
+		// fresh objects may be written freely; the nil reference owns no locations at all
+		allowed = append(allowed, "(> "+ml.base+" "+g.allocTerm(g.heap0)+")", eq(ml.base, "0"))
 	}
 	for _, mine := range g.modLocs {
 		if mine.all && len(mine.heaps) == 0 {
